@@ -63,16 +63,23 @@ structure CommitFacts (L : Manifest) (T' : Txn) : Prop where
   kind : T'.kind ≠ .append
   rows : T'.fileRows ≠ 0
   eff : (T'.kind = .delete ∧ T'.updated = [] ∧ T'.moved = [] ∧ T'.fresh = []) ∨
-    ∃ A, applyFrags T' L.frags = moveFrags A L.frags ∧
+    ∃ A, (∀ f ∈ L.frags, applyOne T' f = markFrag A f) ∧
       ((T'.kind = .delete ∧ T'.moved = [] ∧ T'.fresh = []) ∨
         (T'.kind = .update ∧
           (T'.moved.map fun x => (keyOf x.2, x.1)).Perm ((rowsAt A L.frags).map fun x => kr x.2)))
 
+theorem CommitFacts.kinds {L : Manifest} {T' : Txn} (hf : CommitFacts L T') : T'.kind = .update ∨ T'.kind = .delete := by
+  rcases hf.eff with ⟨hd, _⟩ | ⟨A, _, ⟨hd, _⟩ | ⟨hu, _⟩⟩
+  · exact Or.inr hd
+  · exact Or.inr hd
+  · exact Or.inl hu
+
 theorem hinv_commit {h : Hist} {L : Manifest} {ms : List Manifest} (hms : h.ms = L :: ms) (hi : HInv h) {T' : Txn}
-    (hf : CommitFacts L T') (ft : Foot) : HInv { ms := buildOn L T' :: h.ms, feet := ft :: h.feet } := by
+    (hf : CommitFacts L T') : HInv { ms := buildOn L T' :: h.ms, feet := T'.foot :: h.feet } := by
+  have hkinds := hf.kinds
   rcases hf.eff with ⟨_, hu, hm, hfr⟩ | ⟨A, harm, hm⟩
-  · exact hinv_drop hms hi T' hf.kind hf.rows hu hm hfr ft
-  · refine hinv_du hms hi T' A hf.kind hf.rows harm ?_ ft
+  · exact hinv_drop hms hi T' hf.kind hkinds hf.rows hu hm hfr
+  · refine hinv_du hms hi T' A hf.kind hkinds hf.rows harm ?_
     rcases hm with ⟨_, h0, _⟩ | ⟨_, hp⟩
     · exact Or.inl h0
     · right
@@ -97,9 +104,18 @@ theorem upsert_moved_pairs (frags : List Frag) (src : List Row) :
       simp only [kr]
       rw [key_of_joins (matchOf_mem hm).2]
 
-/-- the facts hold for the transaction a writer plans on the latest version itself -/
-theorem facts_own {L : Manifest} (hok : FragOk L) (op : Op) (T : Txn) (hp : planOf op L = some T)
-    (hrej : rejectOf op L = none) (hk : T.kind ≠ .append) : CommitFacts L T := by
+/-- what a planned Delete / Update transaction looks like, in terms of the version `mv` its writer has read -/
+structure PlanFacts (mv : Manifest) (T : Txn) : Prop where
+  rows : T.fileRows ≠ 0
+  eff : (T.kind = .delete ∧ T.updated = [] ∧ T.moved = [] ∧ T.fresh = [] ∧ T.affected = none) ∨
+    ∃ A, T.affected = some A ∧ T.removed = removedOf A mv.frags ∧ T.updated = updatedOf A mv.frags ∧
+      (∀ a ∈ A, ∃ x ∈ liveTagged mv.frags, x.1 = a) ∧
+      ((T.kind = .delete ∧ T.moved = [] ∧ T.fresh = []) ∨
+        (T.kind = .update ∧
+          (T.moved.map fun x => (keyOf x.2, x.1)).Perm ((rowsAt A mv.frags).map fun x => kr x.2)))
+
+theorem plan_facts {mv : Manifest} (hok : FragOk mv) (op : Op) (T : Txn) (hp : planOf op mv = some T)
+    (hrej : rejectOf op mv = none) (hk : T.kind ≠ .append) : PlanFacts mv T := by
   cases op with
   | create f k rows => simp [planOf] at hp
   | overwrite f rows => simp [planOf] at hp
@@ -114,15 +130,19 @@ theorem facts_own {L : Manifest} (hok : FragOk L) (op : Op) (T : Txn) (hp : plan
     unfold planDelete
     by_cases hall : p = .all
     · rw [if_pos hall]
-      exact ⟨by simp, defaultMaxRows_ne', Or.inl ⟨rfl, rfl, rfl, rfl⟩⟩
+      exact ⟨defaultMaxRows_ne', Or.inl ⟨rfl, rfl, rfl, rfl, rfl⟩⟩
     · rw [if_neg hall]
-      refine ⟨by simp, defaultMaxRows_ne', Or.inr ⟨(selected (predHit p) L.frags).map (·.1), ?_, Or.inl ⟨rfl, rfl, rfl⟩⟩⟩
-      exact own_plan _ _ hok.1 _ rfl rfl
+      refine ⟨defaultMaxRows_ne', Or.inr ⟨(selected (predHit p) mv.frags).map (·.1), rfl, rfl, rfl, ?_, Or.inl ⟨rfl, rfl, rfl⟩⟩⟩
+      intro a ha
+      obtain ⟨x, hx, rfl⟩ := List.mem_map.mp ha
+      exact ⟨x, selected_sub _ _ x hx, rfl⟩
   | update p y =>
     simp only [planOf, Option.some.injEq] at hp
     subst hp
-    refine ⟨by simp [planUpdate], defaultMaxRows_ne', Or.inr ⟨(selected (predHit p) L.frags).map (·.1), ?_, Or.inr ⟨rfl, ?_⟩⟩⟩
-    · exact own_plan _ _ hok.1 _ rfl rfl
+    refine ⟨defaultMaxRows_ne', Or.inr ⟨(selected (predHit p) mv.frags).map (·.1), rfl, rfl, rfl, ?_, Or.inr ⟨rfl, ?_⟩⟩⟩
+    · intro a ha
+      obtain ⟨x, hx, rfl⟩ := List.mem_map.mp ha
+      exact ⟨x, selected_sub _ _ x hx, rfl⟩
     · rw [rowsAt_selected _ _ hok.1]
       simp only [planUpdate, List.map_map]
       apply List.Perm.of_eq
@@ -151,14 +171,31 @@ theorem facts_own {L : Manifest} (hok : FragOk L) (op : Op) (T : Txn) (hp : plan
               | false => simp [hkk] at hko
             simp only [keysOk, Bool.and_eq_true] at hk2
             exact hk2.2
-      refine ⟨by simp [planUpsert], defaultMaxRows_ne', Or.inr ⟨(rows.filterMap (matchOf L.frags)).map (·.1), ?_, Or.inr ⟨rfl, ?_⟩⟩⟩
-      · exact own_plan _ _ hok.1 _ rfl rfl
-      · have hperm := rowsAt_matches L.frags rows hok.1 hkeys
+      refine ⟨defaultMaxRows_ne', Or.inr ⟨(rows.filterMap (matchOf mv.frags)).map (·.1), rfl, rfl, rfl, ?_, Or.inr ⟨rfl, ?_⟩⟩⟩
+      · intro a ha
+        obtain ⟨x, hx, rfl⟩ := List.mem_map.mp ha
+        obtain ⟨s, _, hs⟩ := List.mem_filterMap.mp hx
+        exact ⟨x, (matchOf_mem hs).1, rfl⟩
+      · have hperm := rowsAt_matches mv.frags rows hok.1 hkeys
         refine List.Perm.trans ?_ (hperm.map fun x => kr x.2)
         apply List.Perm.of_eq
         simp only [planUpsert]
-        exact upsert_moved_pairs L.frags rows
+        exact upsert_moved_pairs mv.frags rows
     · cases hp
+
+theorem PlanFacts.kinds {mv : Manifest} {T : Txn} (hf : PlanFacts mv T) : T.kind = .update ∨ T.kind = .delete := by
+  rcases hf.eff with ⟨hd, _⟩ | ⟨A, _, _, _, _, ⟨hd, _⟩ | ⟨hu, _⟩⟩
+  · exact Or.inr hd
+  · exact Or.inr hd
+  · exact Or.inl hu
+
+/-- the facts hold for the transaction a writer plans on the latest version itself -/
+theorem facts_own {L : Manifest} (hok : FragOk L) {T : Txn} (hpf : PlanFacts L T) (hk : T.kind ≠ .append) :
+    CommitFacts L T := by
+  refine ⟨hk, hpf.rows, ?_⟩
+  rcases hpf.eff with ⟨h1, h2, h3, h4, _⟩ | ⟨A, _, hr, hu, _, hkm⟩
+  · exact Or.inl ⟨h1, h2, h3, h4⟩
+  · exact Or.inr ⟨A, own_plan A L.frags hok.1 T hr hu, hkm⟩
 
 theorem planOf_append {op : Op} {mv : Manifest} {T : Txn} (hp : planOf op mv = some T) (hk : T.kind = .append) :
     ∃ f rows, op = .append f rows ∧ T = planAppend f rows := by
@@ -185,124 +222,5 @@ theorem planOf_append {op : Op} {mv : Manifest} {T : Txn} (hp : planOf op mv = s
       subst hp
       cases hk
     · cases hp
-
-/-- what a commit through a handle does, for the calls covered so far (the handle is on the latest version, or the call is
-    an append): an error leaves the history alone; otherwise one manifest is pushed, built on the LATEST manifest from the
-    rebased transaction, which is either the planned append or a Delete / Update transaction with `CommitFacts` -/
-theorem commitStale_spec (h : Hist) (v : Nat) (op : Op) (hi : HInv h)
-    (hc : ∀ L ms, h.ms = L :: ms → v = L.version ∨ ∃ f rows, op = .append f rows) :
-    ((commitStale h v op).1 = h ∧ (commitStale h v op).2 ≠ .ok) ∨
-    ∃ L ms T', h.ms = L :: ms ∧
-      commitStale h v op = ({ ms := buildOn L T' :: h.ms, feet := T'.foot :: h.feet }, .ok) ∧
-      ((∃ f rows, op = .append f rows ∧ f ≠ 0 ∧ T' = planAppend f rows) ∨
-       (CommitFacts L T' ∧ ∃ mv T, mv ∈ h.ms ∧ planOf op mv = some T ∧ T.kind ≠ .append ∧ T'.kind = T.kind ∧
-          T'.fresh = T.fresh)) := by
-  unfold commitStale
-  cases hms : h.ms with
-  | nil => exact Or.inl ⟨rfl, fun hh => by cases hh⟩
-  | cons L ms =>
-    simp only
-    cases hfind : (L :: ms).find? (fun m => m.version == v) with
-    | none => exact Or.inl ⟨rfl, fun hh => by cases hh⟩
-    | some mv =>
-      simp only
-      cases hp : planOf op mv with
-      | none => exact Or.inl ⟨rfl, fun hh => by cases hh⟩
-      | some T =>
-        simp only
-        cases hr : rejectOf op mv with
-        | some k => exact Or.inl ⟨rfl, fun hh => by cases hh⟩
-        | none =>
-          simp only
-          cases hreb : rebase T (othersSince h v) L with
-          | error c => cases c <;> exact Or.inl ⟨rfl, fun hh => by cases hh⟩
-          | ok T' =>
-            simp only
-            right
-            refine ⟨L, ms, T', rfl, rfl, ?_⟩
-            by_cases hk : T.kind = .append
-            · obtain ⟨f, rows, hop, hT⟩ := planOf_append hp hk
-              have hT' := rebase_append hk hreb
-              subst hT'
-              subst hT
-              have hf : f ≠ 0 := by
-                subst hop
-                simp only [rejectOf] at hr
-                split at hr
-                · cases hr
-                · split at hr
-                  · cases hr
-                  · assumption
-              exact Or.inl ⟨f, rows, hop, hf, rfl⟩
-            · rcases hc L ms hms with hv | ⟨f, rows, hop⟩
-              · subst hv
-                have hfl := find_latest hms
-                rw [hms] at hfl
-                rw [hfl] at hfind
-                cases hfind
-                rw [othersSince_latest hms hi, rebase_nil_du T L hk] at hreb
-                cases hreb
-                exact Or.inr ⟨facts_own (hi.frag L (hms ▸ List.mem_cons_self ..)) op T hp hr hk,
-                  L, T, List.mem_cons_self .., hp, hk, rfl, rfl⟩
-              · subst hop
-                simp only [planOf, Option.some.injEq] at hp
-                subst hp
-                exact absurd rfl hk
-
-theorem hinv_commitStale (h : Hist) (v : Nat) (op : Op) (hi : HInv h)
-    (hc : ∀ L ms, h.ms = L :: ms → v = L.version ∨ ∃ f rows, op = .append f rows) :
-    HInv (commitStale h v op).1 := by
-  rcases commitStale_spec h v op hi hc with ⟨he, _⟩ | ⟨L, ms, T', hms, heq, hcase⟩
-  · rw [he]; exact hi
-  · rw [heq]
-    rcases hcase with ⟨f, rows, _, hf, rfl⟩ | ⟨hfacts, _⟩
-    · exact hinv_append hms hi f hf rows _
-    · exact hinv_commit hms hi hfacts _
-
-/-- the calls covered so far: every call except a delete / update / merge_insert through a handle that is not on the
-    latest version -/
-def calm (h : Hist) (c : Call) : Bool :=
-  match c.rv, c.op, h.ms with
-  | some _, .base (.append _ _), _ => true
-  | some v, .base _, L :: _ => v == L.version
-  | _, _, _ => true
-
-theorem hinv_step (h : Hist) (c : Call) (hi : HInv h) (hc : calm h c = true) : HInv (stepCall h c).1 := by
-  unfold stepCall
-  cases hrv : c.rv with
-  | none =>
-    cases hop : c.op with
-    | base op =>
-      simp only
-      split
-      · apply hinv_commitStale h _ op hi
-        intro L ms hms
-        left
-        rw [hms]
-      · exact hinv_seq h op hi
-    | restore v =>
-      simp only
-      cases hms : h.ms with
-      | nil => exact hi
-      | cons L ms =>
-        simp only
-        cases hfind : (L :: ms).find? (fun m => m.version == v) with
-        | none => exact hi
-        | some old =>
-          simp only
-          rw [← hms]
-          exact hinv_restore hms hi (hms ▸ List.mem_of_find?_eq_some hfind) _
-  | some v =>
-    cases hop : c.op with
-    | base op =>
-      simp only
-      apply hinv_commitStale h v op hi
-      intro L ms hms
-      unfold calm at hc
-      rw [hrv, hop, hms] at hc
-      cases op with
-      | append f rows => exact Or.inr ⟨f, rows, rfl⟩
-      | _ => left; simpa using hc
-    | restore v2 => exact hi
 
 end LanceModel.C18
